@@ -307,6 +307,13 @@ func (c19) Run(t *tape.Tape, cfg sim.Config) (res sim.Result) {
 			checkAll("(in the middle of an InstantiateModule call)")
 		}
 	}
+	heldObs = nil
+	defer func() {
+		if heldObs != nil {
+			heldObs.g.Mod.Close(ctx)
+			heldObs = nil
+		}
+	}()
 	defer func() {
 		duringInstantiate = nil
 		res.Stat("probe.structural_checks_in_the_middle_of_instantiation", int64(midChecks))
@@ -582,6 +589,15 @@ func clip(s string) string {
 
 // observeMC instantiates the shim with the node's configuration and compares
 // what the guest sees with the node's record.
+// keptGuest: the guest of the previous observation, left running until the next one.
+type keptGuest struct {
+	g         *w.Guest
+	idx       int
+	args, env []string
+}
+
+var heldObs *keptGuest
+
 func observeMC(res *sim.Result, rt any, n *node, idx int, after string, stdouts []*bytes.Buffer, withSock, namedBinary bool) bool {
 	rec := n.mc
 	mc := n.val.(wazero.ModuleConfig)
@@ -591,10 +607,31 @@ func observeMC(res *sim.Result, rt any, n *node, idx int, after string, stdouts 
 		return false
 	}
 	ctx := context.Background()
-	defer g.Mod.Close(ctx)
+	// the guest observed BEFORE this one is still running: what it was given at its instantiation is its
+	// own; instantiating with another node of the tree (this one) must not reach it
+	prev := heldObs
+	heldObs = nil
+	hold := false
+	defer func() {
+		if prev != nil {
+			prev.g.Mod.Close(ctx)
+		}
+		if !hold {
+			g.Mod.Close(ctx)
+		}
+	}()
 	fail := func(f string, a ...any) bool {
 		res.Fail("config-observation", "after %s: guest instantiated with node %d (created by %s): %s", after, idx, n.how, fmt.Sprintf(f, a...))
 		return false
+	}
+	if prev != nil {
+		res.Stat("probe.earlier_guest_read_again_after_a_later_instantiation", 1)
+		pa, ok1 := readList(prev.g, "args")
+		pe, ok2 := readList(prev.g, "environ")
+		if !ok1 || !ok2 || strings.Join(pa, "\x00") != strings.Join(prev.args, "\x00") || strings.Join(pe, "\x00") != strings.Join(prev.env, "\x00") {
+			res.Fail("config-observation", "after %s: the guest instantiated EARLIER with node %d is still running and now reads args %q environ %q; at its instantiation it read args %q environ %q -- instantiating with node %d (created by %s) reached it", after, prev.idx, pa, pe, prev.args, prev.env, idx, n.how)
+			return false
+		}
 	}
 	// module name
 	wantName := ""
@@ -628,6 +665,11 @@ func observeMC(res *sim.Result, rt any, n *node, idx int, after string, stdouts 
 	}
 	if strings.Join(env, "\x00") != strings.Join(wantEnv, "\x00") {
 		return fail("environ %q, model has %q", env, wantEnv)
+	}
+	if g.Mod.Name() == "" {
+		// (a named instance would block the next instantiation under that name)
+		hold = true
+		defer func() { heldObs = &keptGuest{g: g, idx: idx, args: args, env: env} }()
 	}
 	// preopens
 	var pre []string
